@@ -11,7 +11,7 @@ mkdir -p "$work/repo"
 (cd "$work/repo" && git init -q . && git apply "$patch") || { echo "MUTANT-RUN: patch does not apply"; exit 3; }
 mkdir -p "$work/verif"
 (cd /verif && tar --exclude=./.git --exclude=./replay --exclude=./.cache/ocaml --exclude='./.cache/*.lock' -cf - .) | (cd "$work/verif" && tar xf -)
-sed -i "s#/repo/#$work/repo/#g" "$work/verif/harness/Cargo.toml"
+for f in "$work"/verif/harness*/Cargo.toml; do sed -i "s#/repo/#$work/repo/#g" "$f"; done
 cd "$work/verif"
 rc=0
 for id in "$@"; do
